@@ -181,14 +181,10 @@ class SSHChannel(Generic[AnyStr], SSHPacketHandler):
         self._encoding = encoding
         self._errors = errors
 
-        if encoding:
-            self._encoder: Optional[codecs.IncrementalEncoder] = \
-                codecs.getincrementalencoder(encoding)(errors)
-            self._decoder: Optional[codecs.IncrementalDecoder] = \
-                codecs.getincrementaldecoder(encoding)(errors)
-        else:
-            self._encoder = None
-            self._decoder = None
+        # Each data type is a byte stream of its own, so each one gets
+        # an encoder and a decoder of its own (created on first use)
+        self._encoders: Dict[DataType, codecs.IncrementalEncoder] = {}
+        self._decoders: Dict[DataType, codecs.IncrementalDecoder] = {}
 
     def get_recv_window(self) -> int:
         """Return the configured receive window for this channel"""
@@ -348,9 +344,9 @@ class SSHChannel(Generic[AnyStr], SSHPacketHandler):
             if self._encoding and not exc and \
                     self._recv_state in ('eof_pending', 'close_pending'):
                 try:
-                    assert self._decoder is not None
-                    self._decoder.decode(b'', True)
-                except UnicodeDecodeError as unicode_exc:
+                    for decoder in self._decoders.values():
+                        decoder.decode(b'', True)
+                except UnicodeError as unicode_exc:
                     raise ProtocolError(str(unicode_exc)) from None
 
             if self._recv_state == 'eof_pending':
@@ -384,9 +380,15 @@ class SSHChannel(Generic[AnyStr], SSHPacketHandler):
 
         if self._encoding:
             try:
-                assert self._decoder is not None
-                decoded_data = cast(AnyStr, self._decoder.decode(data))
-            except UnicodeDecodeError as unicode_exc:
+                decoder = self._decoders.get(datatype)
+
+                if decoder is None:
+                    decoder = codecs.getincrementaldecoder(
+                        self._encoding)(self._errors)
+                    self._decoders[datatype] = decoder
+
+                decoded_data = cast(AnyStr, decoder.decode(data))
+            except UnicodeError as unicode_exc:
                 raise ProtocolError(str(unicode_exc)) from None
         else:
             decoded_data = cast(AnyStr, data)
@@ -945,8 +947,14 @@ class SSHChannel(Generic[AnyStr], SSHPacketHandler):
             return
 
         if self._encoding:
-            assert self._encoder is not None
-            encoded_data = self._encoder.encode(cast(str, data))
+            encoder = self._encoders.get(datatype)
+
+            if encoder is None:
+                encoder = codecs.getincrementalencoder(
+                    self._encoding)(self._errors)
+                self._encoders[datatype] = encoder
+
+            encoded_data = encoder.encode(cast(str, data))
         else:
             encoded_data = cast(bytes, data)
 
